@@ -84,10 +84,12 @@ def check_take_offsets(F, f):
 def run(run_, ctx):
     run_groups(run_, ctx, [
         ("E", "ser_cobs", None, "COBS encoder flavor"),
+        # the encoder flavor does not override try_extend: multi-byte writes reach it through the trait's provided method
+        ("E", "ser_default", None, "provided try_extend (what Cobs inherits)"),
         ("E", "ser_entry", lambda k: "cobs" in k, "COBS encode wrapper"),
         ("D", "de_entry", lambda k: "cobs" in k, "COBS decode glue"),
     ])
-    run_.floor("E", 7)
+    run_.floor("E", 8)
     run_.floor("D", 2)
     F = ctx.facts("A")
     pc = F.crate("postcard")
